@@ -59,11 +59,18 @@ Expected(r) ==
       [] r.ev = "Invalid" -> ToJson(DecT(r.t, Take(r.bytes, r.len)))
       [] r.ev = "Ret" -> ToJson(EncT(r.t, r.v))
 
-TraceInit == l = 1 /\ TLCSet(1, 1)
-TraceNext == l <= Len(Rec) /\ Accept(Rec[l]) /\ l' = l + 1 /\ TLCSet(1, l + 1)
+\* Every record is decided.  A rejected record is printed (<<"REJECT", json>>) and counted, and validation goes
+\* on with the next record, so that one run reports every disagreement; the trace is accepted iff none was.
+SetToSeq(S) == LET RECURSIVE F(_) F(X) == IF X = {} THEN <<>> ELSE LET x == CHOOSE y \in X : TRUE IN <<x>> \o F(X \ {x}) IN F(S)
+Reject(i) == PrintT(<<"REJECT", ToJson([index |-> i, failed |-> SetToSeq(Failed(Rec[i])), expected |-> Expected(Rec[i])])>>)
+                /\ TLCSet(2, TLCGet(2) + 1)
+TraceInit == l = 1 /\ TLCSet(1, 1) /\ TLCSet(2, 0)
+TraceNext == /\ l <= Len(Rec)
+             /\ IF Accept(Rec[l]) THEN TRUE ELSE Reject(l)
+             /\ l' = l + 1 /\ TLCSet(1, l + 1)
 TraceSpec == TraceInit /\ [][TraceNext]_l
 
 Accepted ==
-    IF TLCGet(1) = Len(Rec) + 1 THEN TRUE
-    ELSE Print(<<"FIRST-UNMATCHED", TLCGet(1), Failed(Rec[TLCGet(1)]), Expected(Rec[TLCGet(1)])>>, FALSE)
+    /\ TLCGet(1) = Len(Rec) + 1 \/ Print(<<"FIRST-UNMATCHED", TLCGet(1)>>, FALSE)     \* a record could not be evaluated
+    /\ TLCGet(2) = 0 \/ Print(<<"REJECTED", TLCGet(2)>>, FALSE)
 =============================================================================
